@@ -6,6 +6,8 @@ par clang -c $CF $REPO/igris/util/hexascii.c -o $BUILD/hexascii.o
 par clang++ -std=c++20 -c $CF $REPO/igris/string/hexascii_string.cpp -o $BUILD/hexstr.o
 par clang++ -std=c++20 -c $CF $REPO/igris/util/base64.cpp -o $BUILD/base64.o
 par clang++ -std=c++20 -c $CF $VERIF/harness/c18/c18_codecs.cpp -o $BUILD/h.o
+par clang++ -std=c++20 -c $CF $VERIF/harness/c18/c18_first.cpp -o $BUILD/first.o
+par clang -c $CF $VERIF/harness/c18/c18_first_c.c -o $BUILD/firstc.o
 par clang++ -std=c++20 -c $CF $VERIF/harness/c18/c18_early.cpp -o $BUILD/early.o
 par clang++ -std=c++20 -c $CF $VERIF/harness/c18/c18_late.cpp -o $BUILD/late.o
 par clang++ -std=c++20 -O2 -c -I$MC $MC/mc.cpp -o $BUILD/mc.o
@@ -15,12 +17,23 @@ par gcc -c $VF $REPO/igris/util/hexascii.c -o $BUILD/v_hexascii.o
 par g++ -std=c++20 -c $VF $REPO/igris/string/hexascii_string.cpp -o $BUILD/v_hexstr.o
 par g++ -std=c++20 -c $VF $REPO/igris/util/base64.cpp -o $BUILD/v_base64.o
 par g++ -std=c++20 -c $VF -DC18_VARIANT $VERIF/harness/c18/c18_codecs.cpp -o $BUILD/v_h.o
+par g++ -std=c++20 -c $VF $VERIF/harness/c18/c18_first.cpp -o $BUILD/v_first.o
+par gcc -c $VF $VERIF/harness/c18/c18_first_c.c -o $BUILD/v_firstc.o
 parwait
-par clang++ -fsanitize=address $BUILD/h.o $BUILD/hexascii.o $BUILD/hexstr.o $BUILD/base64.o $BUILD/mc.o -o $BUILD/c18
+par clang++ -fsanitize=address $BUILD/h.o $BUILD/first.o $BUILD/firstc.o $BUILD/hexascii.o $BUILD/hexstr.o $BUILD/base64.o $BUILD/mc.o -o $BUILD/c18
 # static-initialisation probe: early.o FIRST (its global constructor calls the codecs), the library objects
 # behind it, late.o LAST; spawned by the sub-check static_init_time of c18
 par clang++ -fsanitize=address $BUILD/early.o $BUILD/base64.o $BUILD/hexstr.o $BUILD/hexascii.o $BUILD/late.o -o $BUILD/c18early
-par g++ -fsanitize=address $BUILD/v_h.o $BUILD/v_hexascii.o $BUILD/v_hexstr.o $BUILD/v_base64.o $BUILD/mc.o -o $BUILD/c18v
+# unsanitised executable (locals really on the stack): only the dirtied-stack sub-check runs there
+PF="-O2 -g -I$REPO -I$MC"
+( g++ -std=c++20 -c $PF -DC18_PLAIN $VERIF/harness/c18/c18_codecs.cpp -o $BUILD/p_h.o && g++ -std=c++20 -c $PF $REPO/igris/util/base64.cpp -o $BUILD/p_base64.o \
+  && g++ -std=c++20 -c $PF $REPO/igris/string/hexascii_string.cpp -o $BUILD/p_hexstr.o && gcc -c $PF $REPO/igris/util/hexascii.c -o $BUILD/p_hexascii.o \
+  && g++ -std=c++20 -c $PF $VERIF/harness/c18/c18_first.cpp -o $BUILD/p_first.o && gcc -c $PF $VERIF/harness/c18/c18_first_c.c -o $BUILD/p_firstc.o \
+  && g++ $BUILD/p_h.o $BUILD/p_first.o $BUILD/p_firstc.o $BUILD/p_hexascii.o $BUILD/p_hexstr.o $BUILD/p_base64.o $BUILD/mc.o -o $BUILD/c18p ) &
+PLAIN=$!
+par g++ -fsanitize=address $BUILD/v_h.o $BUILD/v_first.o $BUILD/v_firstc.o $BUILD/v_hexascii.o $BUILD/v_hexstr.o $BUILD/v_base64.o $BUILD/mc.o -o $BUILD/c18v
 parwait
 echo "codecs $BUILD/c18" > $BUILD/runs.txt
+wait $PLAIN
 echo "codecs_gcc_O2_ndebug $BUILD/c18v" >> $BUILD/runs.txt
+echo "codecs_unsanitised $BUILD/c18p --only base64_with_dirtied_stack" >> $BUILD/runs.txt
